@@ -740,7 +740,7 @@ def to_const_poly(e: expr.Expr) -> ConstantPolynomial:
                     log_factors.append(const_fraction(e))
                 elif isinstance(n, expr.Expr) and n.is_fun() and n.func_name == "exp":
                     body = n.args[0]
-                    log_factors.append(const_singleton(body))
+                    log_factors.append(const_fraction(e) * to_const_poly(body))
                 else:
                     log_factors.append(const_fraction(e) * const_singleton(expr.log(n)))
             if mono.coeff == 1:
